@@ -723,6 +723,57 @@ def judge_freeo(inp, obs, lr):
         return {"expected": obs["want_len"][:40], "observed": obs["fwl"][:40], "tags": {"what": "free_words_of_length"}}
     return None
 
+# =====================================================================================
+# oracle: freely reduced enumeration for generators with multi-character names (parse_simple=False)
+# (wave 6: free_automaton compared a generator with the *reversed, letter-wise* inverse of another one, which is the
+#  inverse generator only for one-letter names)
+# =====================================================================================
+LONG_NAME_SETS = [["x1", "x2"], ["ab", "c"], ["gen1", "gen2", "g"], ["s0", "s1", "s2"], ["word1"], ["aa", "a"], ["ab", "ba"]]
+
+
+def gen_free_long(rng, n):
+    for i in range(n):
+        names = list(LONG_NAME_SETS[i % len(LONG_NAME_SETS)]) if i < 2 * len(LONG_NAME_SETS) else list(rng.choice(LONG_NAME_SETS))
+        L = rng.randint(0, {1: 5, 2: 3, 3: 3}[len(names)])
+        spec = H.rand_spec(rng, ring="Q", simple=False, n=rng.choice([1, 2, 3]), names=names, reassign=False,
+                           kind=rng.choice(["uni", "orth", "diag"]), dtmix=False)
+        yield {"spec": spec, "L": L, "maxlen": rng.random() < 0.6}
+
+
+@H.limited(15)
+def run_free_long(inp):
+    rep = H.build_rep(inp["spec"])
+    names = sorted({h["g"].lower() for h in inp["spec"]["hist"]})
+    letters = [x for g in names for x in (g, g.upper())]
+    inverse = {g: g.upper() for g in names}
+    inverse.update({g.upper(): g for g in names})
+    lens = range(inp["L"] + 1) if inp["maxlen"] else [inp["L"]]
+    want = sorted("*".join(w) for l in lens for w in itertools.product(letters, repeat=l)
+                  if all(inverse[w[i]] != w[i + 1] for i in range(l - 1)))
+    mats, ws = rep.freely_reduced_elements(inp["L"], maxlen=inp["maxlen"], with_words=True)
+    only = rep.freely_reduced_elements(inp["L"], maxlen=inp["maxlen"])
+    err = 0.0
+    for w, m in zip(ws, mats):
+        P = np.identity(inp["spec"]["n"])
+        for g in (w.split("*") if w else []):
+            P = P @ np.asarray(rep.generators[g], dtype=float)
+        err = max(err, float(np.max(np.abs(np.asarray(m, dtype=float) - P))) / (1 + float(np.max(np.abs(P)))))
+    return {"words": sorted(ws), "want": want, "err": err, "n_only": int(len(only)), "n": int(len(mats))}
+
+
+def judge_free_long(inp, obs, lr):
+    if "exc" in obs:
+        return {"expected": "enumeration", "observed": obs, "tags": {"exc": obs["exc"], "names": "multi-character"}}
+    if obs["words"] != obs["want"]:
+        extra = [w for w in obs["words"] if w not in set(obs["want"])]
+        return {"expected": {"count": len(obs["want"]), "words": obs["want"][:30]},
+                "observed": {"count": len(obs["words"]), "not freely reduced or repeated": extra[:10]},
+                "tags": {"what": "freely reduced words, each once", "names": "multi-character"}}
+    if not obs["err"] <= 1e-8 or obs["n_only"] != obs["n"]:
+        return {"expected": "images of the words", "observed": [obs["err"], obs["n_only"], obs["n"]], "tags": {"what": "images", "names": "multi-character"}}
+    return None
+
+
 
 # =====================================================================================
 # oracle: memo reuse
@@ -956,6 +1007,10 @@ CLAUSES = [
            what="returned words = words of a 20-line reference path enumerator (start/end, =L/<=L) as multisets; matrix k = rep[word k]; with_words=False returns the same matrices; agreement with enumerate_words"),
     Clause("single_oracle", "oracle", gen_single, run_single, judge_single, site="Representation.automaton_accepted(edge_words=False)",
            budget={"quick": 150, "thorough": 6000}, what="edge_words=False agrees with edge_words=True on one-letter labels"),
+    Clause("free_long_names_oracle", "oracle", gen_free_long, run_free_long, judge_free_long,
+           site="Representation.freely_reduced_elements / fsa.free_automaton (multi-character generator names)",
+           budget={"quick": 40, "thorough": 600},
+           what="parse_simple=False representations whose generators have multi-character names (x1, gen2, ab/ba, aa/a): freely_reduced_elements returns every tuple of generators without a generator next to its own inverse exactly once ('*'-joined), with its image"),
     Clause("free_oracle", "oracle", gen_free, run_freeo, judge_freeo, site="Representation.freely_reduced_elements",
            budget={"quick": 100, "thorough": 4500},
            what="freely_reduced_elements / free_words_of_length return each freely reduced word exactly once, with its image"),
